@@ -12,13 +12,28 @@ use cairo_lang_sierra::program::Program;
 use cairo_lang_sierra_generator::db::SierraGenGroup;
 use cairo_lang_sierra_generator::replace_ids::replace_sierra_ids_in_program;
 
-pub const CORELIB: &str = "/repo/corelib/src";
+/// Root of the tree under test: $VERIF_REPO (set by lib/seedeval.sh for scratch worktrees), else /repo.
+/// corelib is part of the tree under test and is always taken from there.
+pub fn repo_root() -> String {
+    std::env::var("VERIF_REPO").ok().filter(|s| !s.is_empty()).unwrap_or_else(|| "/repo".to_string())
+}
+pub fn corelib() -> String {
+    format!("{}/corelib/src", repo_root())
+}
 
 /// A database configured like `cairo-run` without `--available-gas` (no gas bookkeeping in the code).
 pub fn new_db() -> RootDatabase {
     // `detect_corelib` looks at $CARGO_MANIFEST_DIR/../../corelib/src first: point it at /repo.
-    unsafe { std::env::set_var("CARGO_MANIFEST_DIR", "/repo/crates/cairo-lang-compiler") };
-    assert!(Path::new(CORELIB).exists(), "corelib not found at {CORELIB}");
+    unsafe {
+        std::env::set_var("CARGO_MANIFEST_DIR", format!("{}/crates/cairo-lang-compiler", repo_root()))
+    };
+    let cl = corelib();
+    assert!(Path::new(&cl).exists(), "corelib not found at {cl}");
+    assert_eq!(
+        cairo_lang_filesystem::detect::detect_corelib().map(|p| p.to_string_lossy().to_string()),
+        Some(cl.clone()),
+        "corelib detection does not point at the tree under test"
+    );
     let mut b = RootDatabase::builder();
     b.detect_corelib();
     b.skip_auto_withdraw_gas().with_cfg(CfgSet::from_iter([Cfg::kv("gas", "disabled")]));
